@@ -111,9 +111,9 @@ let () =
             | "H" -> OHide (name_of_string (tok t.(1)), t.(2) = "1")
             | "X" -> OAffix (n_of_int (int_of_string t.(1)), name_of_string (tok t.(2)), name_of_string (tok t.(3)))
             | "Q" -> OList (optok t.(1), n_of_int (int_of_string t.(2)), n_of_int (int_of_string t.(3)))
-            | "U" | "I" | "J" | "S" | "N" -> OAffix (n_of_int 0, [n_of_int 47], [])   (* not modelled: see below *)
+            | "U" | "I" | "J" | "S" | "N" | "W" -> OAffix (n_of_int 0, [n_of_int 47], [])   (* not modelled: see below *)
             | _ -> failwith ("bad op " ^ t.(0)) in
-          let (st', r) = if List.mem t.(0) ["U"; "I"; "J"; "S"; "N"] then (!st, RUnmodelled) else (ignore cfg; step !st o) in
+          let (st', r) = if List.mem t.(0) ["U"; "I"; "J"; "S"; "N"; "W"] then (!st, RUnmodelled) else (ignore cfg; step !st o) in
           (match r with
            | RInt z -> Printf.printf "> r %d\n" (int_of_z z)
            | RList l ->
